@@ -1,8 +1,290 @@
-//! C08 special ops: stale handles and re-entrant calls (filled in below).
-use crate::api::Surf;
-use crate::interp::{Interp, StepInfo};
-use crate::ops::Op;
+//! C08 special ops: every method with a stale (closed) handle, and every
+//! result-returning method called re-entrantly from a directory-iteration
+//! callback.
 
-pub fn exec_special(_it: &mut Interp, info: &mut StepInfo, _op: &Op, _surf: Surf) {
-    info.skipped = true;
+use crate::api::{Api, Surf, E};
+use crate::interp::{ek, Interp, StepInfo};
+use crate::ops::Op;
+use embedded_sdmmc::{Mode, RawDirectory, RawFile, RawVolume};
+
+fn outcome<T>(r: &Result<T, E>) -> Result<(), String> {
+    match r {
+        Ok(_) => Ok(()),
+        Err(e) => Err(ek(e)),
+    }
+}
+
+pub fn exec_special(it: &mut Interp, info: &mut StepInfo, op: &Op, _surf: Surf) {
+    match op {
+        Op::Stale { kind, which, method: _ } => stale(it, info, *kind, *which),
+        Op::Reenter { d, lfn, method: _, at } => reenter(it, info, *d, *lfn, *at),
+        _ => info.skipped = true,
+    }
+}
+
+fn pick<T>(v: &[T], raw: u16) -> Option<usize> {
+    if v.is_empty() {
+        None
+    } else {
+        Some(((raw as usize) * v.len()) >> 16)
+    }
+}
+
+fn stale(it: &mut Interp, info: &mut StepInfo, kind: u8, which: u16) {
+    let (max_d, max_f, _max_v) = it.api().limits();
+    let dirs_full = it.dirs.len() >= max_d;
+    let files_full = it.files.len() >= max_f;
+    // (method name, outcome, alternative error accepted, handle returned that must be closed again)
+    let mut results: Vec<(&'static str, Result<(), String>, Option<&'static str>)> = Vec::new();
+    let mut leaked_dirs: Vec<RawDirectory> = Vec::new();
+    let mut leaked_files: Vec<RawFile> = Vec::new();
+    match kind % 3 {
+        0 => {
+            // a closed file handle that is not open again (ids are unique, but be safe)
+            let cands: Vec<RawFile> = it.closed_files.iter().copied().filter(|h| !it.files.iter().any(|f| f.h == *h)).collect();
+            let Some(i) = pick(&cands, which) else {
+                info.skipped = true;
+                return;
+            };
+            let h = cands[i];
+            info.kind = "Stale(file)";
+            let r = it_call(it, info, |a| {
+                let mut v: Vec<(&'static str, Result<(), String>, Option<&'static str>)> = Vec::new();
+                let mut buf = [0u8; 16];
+                for s in [Surf::Raw, Surf::Raii, Surf::Io] {
+                    v.push(("read", outcome(&a.read(h, &mut buf, s)), None));
+                    v.push(("write", outcome(&a.write(h, b"stale", s)), None));
+                    v.push(("flush_file", outcome(&a.flush(h, s)), None));
+                    v.push(("file_seek_from_start", outcome(&a.seek_start(h, 0, s)), None));
+                    v.push(("file_seek_from_current", outcome(&a.seek_cur(h, 0, s)), None));
+                    v.push(("file_seek_from_end", outcome(&a.seek_end(h, 0, s)), None));
+                }
+                v.push(("Seek::seek", outcome(&a.io_seek(h, 0, 0)), None));
+                v.push(("file_eof", outcome(&a.eof(h, Surf::Raw)), None));
+                v.push(("file_length", outcome(&a.length(h, Surf::Raw)), None));
+                v.push(("file_offset", outcome(&a.offset(h, Surf::Raw)), None));
+                v.push(("close_file", outcome(&a.close_file(h, Surf::Raw, false)), None));
+                v.push(("File::close", outcome(&a.close_file(h, Surf::Raii, false)), None));
+                v
+            });
+            let Some(v) = r else { return };
+            results = v;
+        }
+        1 => {
+            let cands: Vec<RawDirectory> = it.closed_dirs.iter().copied().filter(|h| !it.dirs.iter().any(|d| d.h == *h)).collect();
+            let Some(i) = pick(&cands, which) else {
+                info.skipped = true;
+                return;
+            };
+            let h = cands[i];
+            info.kind = "Stale(dir)";
+            let r = it_call(it, info, |a| {
+                let mut v: Vec<(&'static str, Result<(), String>, Option<&'static str>)> = Vec::new();
+                let mut ld = Vec::new();
+                let mut lf = Vec::new();
+                for s in [Surf::Raw, Surf::Raii] {
+                    let r = a.open_dir(h, "SUB", s);
+                    if let Ok(x) = &r {
+                        ld.push(*x);
+                    }
+                    v.push(("open_dir", outcome(&r), if dirs_full { Some("TooManyOpenDirs") } else { None }));
+                    let r = a.open_dir(h, ".", s);
+                    if let Ok(x) = &r {
+                        ld.push(*x);
+                    }
+                    v.push(("open_dir(.)", outcome(&r), if dirs_full { Some("TooManyOpenDirs") } else { None }));
+                    v.push(("find_directory_entry", outcome(&a.find(h, "A", s)), None));
+                    v.push(("iterate_dir", outcome(&a.iterate(h, s, &mut |_| {})), None));
+                    let mut b = [0u8; 64];
+                    v.push(("iterate_dir_lfn", outcome(&a.iterate_lfn(h, s, &mut b, &mut |_, _| {})), None));
+                    for m in [Mode::ReadOnly, Mode::ReadWriteCreateOrAppend, Mode::ReadWriteCreate, Mode::ReadWriteTruncate] {
+                        let r = a.open_file(h, "STALE.TMP", m, s);
+                        if let Ok(x) = &r {
+                            lf.push(*x);
+                        }
+                        v.push(("open_file_in_dir", outcome(&r), if files_full { Some("TooManyOpenFiles") } else { None }));
+                    }
+                    v.push(("delete_file_in_dir", outcome(&a.delete(h, "A", s)), None));
+                    v.push(("make_dir_in_dir", outcome(&a.mkdir(h, "STALEDIR", s)), if dirs_full { Some("TooManyOpenDirs") } else { None }));
+                }
+                v.push(("close_dir", outcome(&a.close_dir(h, Surf::Raw)), None));
+                v.push(("Directory::close", outcome(&a.close_dir(h, Surf::Raii)), None));
+                (v, ld, lf)
+            });
+            let Some((v, ld, lf)) = r else { return };
+            results = v;
+            leaked_dirs = ld;
+            leaked_files = lf;
+        }
+        _ => {
+            let cands: Vec<RawVolume> = it.closed_vols.iter().copied().filter(|h| !it.vols.iter().any(|v| v.h == *h)).collect();
+            let Some(i) = pick(&cands, which) else {
+                info.skipped = true;
+                return;
+            };
+            let h = cands[i];
+            info.kind = "Stale(volume)";
+            let r = it_call(it, info, |a| {
+                let mut v: Vec<(&'static str, Result<(), String>, Option<&'static str>)> = Vec::new();
+                let mut ld = Vec::new();
+                for s in [Surf::Raw, Surf::Raii] {
+                    let r = a.open_root_dir(h, s);
+                    if let Ok(x) = &r {
+                        // give the slot back at once so that the following calls see a clean state
+                        let _ = a.close_dir(*x, Surf::Raw);
+                    }
+                    v.push(("open_root_dir", outcome(&r), if dirs_full { Some("TooManyOpenDirs") } else { None }));
+                }
+                v.push(("get_root_volume_label", outcome(&a.label(h)), if dirs_full { Some("TooManyOpenDirs") } else { None }));
+                v.push(("close_volume", outcome(&a.close_volume(h, Surf::Raw)), None));
+                v.push(("Volume::close", outcome(&a.close_volume(h, Surf::Raii)), None));
+                (v, ld)
+            });
+            let Some((v, ld)) = r else { return };
+            results = v;
+            leaked_dirs = ld;
+        }
+    }
+    info.ok = true;
+    info.refused = true;
+    for (m, r, alt) in &results {
+        match r {
+            Err(k) if k == "BadHandle" => {}
+            Err(k) if Some(k.as_str()) == *alt => {}
+            Err(k) => it_div(it, "stale-handle-wrong-error", format!("{} with a closed handle returned {} instead of BadHandle", m, k)),
+            Ok(()) if *m == "open_root_dir" => it_div(it, "stale-volume-handle-accepted-by-open-root-dir", "open_root_dir accepted the handle of a volume that had been closed".into()),
+            Ok(()) => it_div(it, "stale-handle-accepted", format!("{} accepted a handle that had been closed", m)),
+        }
+    }
+    // keep the implementation usable if it handed something out
+    for d in leaked_dirs {
+        let _ = it_call(it, info, |a| a.close_dir(d, Surf::Raw));
+    }
+    for f in leaked_files {
+        let _ = it_call(it, info, |a| a.close_file(f, Surf::Raw, false));
+    }
+}
+
+fn it_div(it: &mut Interp, code: &'static str, detail: String) {
+    let sig = format!("C08/{}", code);
+    if it.tolerate.contains(&sig) {
+        if !it.known_hits.contains(&sig) {
+            it.known_hits.push(sig);
+        }
+        return;
+    }
+    it.divs.push(crate::interp::Divergence { prop: "C08", code, detail, step: it.step_no });
+}
+
+fn it_call<R>(it: &mut Interp, info: &mut StepInfo, f: impl FnOnce(&dyn Api) -> R) -> Option<R> {
+    it.disk.begin_api_call();
+    let api = it.api.take().unwrap();
+    let r = std::panic::catch_unwind(std::panic::AssertUnwindSafe(|| f(&*api)));
+    it.api = Some(api);
+    match r {
+        Ok(v) => Some(v),
+        Err(p) => {
+            let (m, budget) = crate::interp::panic_msg(&p);
+            info.panicked = Some(m.clone());
+            info.budget_exceeded = budget;
+            it.divs.push(crate::interp::Divergence { prop: "ANY", code: "panic", detail: format!("{} panicked: {}", info.kind, m), step: it.step_no });
+            None
+        }
+    }
+}
+
+fn reenter(it: &mut Interp, info: &mut StepInfo, d: u16, lfn: bool, at: u8) {
+    let Some(i) = pick(&it.dirs, d) else {
+        info.skipped = true;
+        return;
+    };
+    let od = it.dirs[i].clone();
+    info.kind = "Reenter";
+    info.slot = Some(od.slot);
+    let vol = od.vol;
+    let file = it.files.first().map(|f| f.h);
+    let free_slot = (0..4usize).find(|s| !it.vols.iter().any(|v| v.slot == *s)).unwrap_or(0);
+    let at = at as usize % 4;
+    let r = it_call(it, info, |a| {
+        let mut results: Vec<(&'static str, Result<(), String>)> = Vec::new();
+        let mut seen = 0usize;
+        let mut fired = false;
+        let mut body = |a: &dyn Api, results: &mut Vec<(&'static str, Result<(), String>)>| {
+            // every public Result-returning method, with valid live handles
+            results.push(("open_volume", outcome(&a.open_volume(free_slot, Surf::Raii))));
+            results.push(("open_raw_volume", outcome(&a.open_volume(free_slot, Surf::Raw))));
+            results.push(("open_root_dir", outcome(&a.open_root_dir(vol, Surf::Raw))));
+            results.push(("open_dir", outcome(&a.open_dir(od.h, ".", Surf::Raw))));
+            results.push(("find_directory_entry", outcome(&a.find(od.h, "A", Surf::Raw))));
+            results.push(("iterate_dir", outcome(&a.iterate(od.h, Surf::Raw, &mut |_| {}))));
+            let mut b = [0u8; 32];
+            results.push(("iterate_dir_lfn", outcome(&a.iterate_lfn(od.h, Surf::Raw, &mut b, &mut |_, _| {}))));
+            results.push(("open_file_in_dir", outcome(&a.open_file(od.h, "REENTER.TMP", Mode::ReadWriteCreateOrAppend, Surf::Raw))));
+            results.push(("delete_file_in_dir", outcome(&a.delete(od.h, "A", Surf::Raw))));
+            results.push(("make_dir_in_dir", outcome(&a.mkdir(od.h, "REENTDIR", Surf::Raw))));
+            results.push(("get_root_volume_label", outcome(&a.label(vol))));
+            if let Some(f) = file {
+                let mut buf = [0u8; 8];
+                results.push(("read", outcome(&a.read(f, &mut buf, Surf::Raw))));
+                results.push(("write", outcome(&a.write(f, b"x", Surf::Raw))));
+                results.push(("flush_file", outcome(&a.flush(f, Surf::Raw))));
+                results.push(("file_eof", outcome(&a.eof(f, Surf::Raw))));
+                results.push(("file_seek_from_start", outcome(&a.seek_start(f, 0, Surf::Raw))));
+                results.push(("file_seek_from_current", outcome(&a.seek_cur(f, 0, Surf::Raw))));
+                results.push(("file_seek_from_end", outcome(&a.seek_end(f, 0, Surf::Raw))));
+                results.push(("file_length", outcome(&a.length(f, Surf::Raw))));
+                results.push(("file_offset", outcome(&a.offset(f, Surf::Raw))));
+                results.push(("close_file", outcome(&a.close_file(f, Surf::Raw, false))));
+            }
+            results.push(("close_dir", outcome(&a.close_dir(od.h, Surf::Raw))));
+            results.push(("close_volume", outcome(&a.close_volume(vol, Surf::Raw))));
+        };
+        let outer = if lfn {
+            let mut buf = [0u8; 64];
+            let mut cb = |_e: &embedded_sdmmc::DirEntry, _n: Option<&str>| {
+                if !fired && seen >= at {
+                    fired = true;
+                    body(a, &mut results);
+                }
+                seen += 1;
+            };
+            let r = a.iterate_lfn(od.h, Surf::Raw, &mut buf, &mut cb);
+            outcome(&r)
+        } else {
+            let mut cb = |_e: &embedded_sdmmc::DirEntry| {
+                if !fired && seen >= at {
+                    fired = true;
+                    body(a, &mut results);
+                }
+                seen += 1;
+            };
+            let r = a.iterate(od.h, Surf::Raw, &mut cb);
+            outcome(&r)
+        };
+        // a directory with fewer than `at`+1 entries: fire on whatever came last is not possible; report
+        (results, outer, fired)
+    });
+    let Some((results, outer, fired)) = r else { return };
+    info.ok = outer.is_ok();
+    if !fired {
+        info.skipped = true;
+        return;
+    }
+    info.refused = true;
+    for (m, r) in &results {
+        match r {
+            Err(k) if k == "LockError" => {}
+            Err(k) => it_div(it, "reentrant-wrong-error", format!("{} called from inside an iteration callback returned {} instead of LockError", m, k)),
+            Ok(()) => it_div(it, "reentrant-call-succeeded", format!("{} called from inside an iteration callback succeeded", m)),
+        }
+    }
+    if let Err(k) = outer {
+        it_div(it, "iteration-failed-after-reentrant-calls", format!("the outer iteration returned {}", k));
+    }
+    it.stats.by_kind.entry("reentrant-calls").and_modify(|x| *x += results.len() as u64).or_insert(results.len() as u64);
+    // every handle must still work: re-query all open files
+    for k in 0..it.files.len() {
+        let of = it.files[k].clone();
+        it.query_file(info, &of, Surf::Raw);
+    }
 }
